@@ -115,7 +115,7 @@ def post_model(cases, obs_list):
         c = 0 if cut is None else min(cut, 10 ** 5)
         lens = [max(0, n - 1) for n in obs["write_lens"]]
         pre = [progs.c_preop(o) for o in case.get("pre", [])]
-        prog = [progs.c_stmt(s) for s in case["prog"]]
+        prog = progs.c_stmts(case["prog"])
         exprs.append(
             "let lines := map (fun n => repeat 0%%N n) %s in let d := crash_disk lines %d %d in "
             "let j := List.length (complete_lines d) in "
